@@ -13,7 +13,8 @@
    spmw <flip> <A12 q-list>
    spmr <flip> <empty> <has_mat> <has_M> <M q-list> <mat q-list>
    allclose <rtol> <atol> <a q-list> <b q-list>
-   upd <has_affine> <close> *)
+   upd <has_affine> <close>
+   coded <sc> <qc> <srow12> <p0> <pix3> <quat3> <qoff3> *)
 let q_of_string (s : string) : q =
   match String.split_on_char '/' (String.trim s) with
   | [n; d] -> { qnum = z_of_string n; qden = pos_of_big (BigZ.of_string d) }
@@ -127,6 +128,16 @@ let handle op args = match op, args with
              | None -> "err driver:unreachable"))
   | "allclose", [rtol; atol; a; b] ->
     "ok " ^ string_of_bool (allclose (q_of_string rtol) (q_of_string atol) (qlist_of_string a) (qlist_of_string b))
+  | "coded", [sc; qc; sr; p0; px; qu; qo] ->
+    let h = { sform_code = z_of_string sc; srow = zlist_of_string sr; qform_code = z_of_string qc;
+              pixdim0 = z_of_string p0; pixdim = zlist_of_string px; quat = zlist_of_string qu;
+              qoff = zlist_of_string qo; dims = [] } in
+    let (sa, scode) = get_sform_coded h in
+    let (qa, qcode) = get_qform_coded h in
+    "ok S:" ^ (match sa with None -> "none" | Some r -> "some" ^ string_of_zlist r) ^ ":" ^ string_of_z scode
+    ^ " Q:" ^ (match qa with None -> "none"
+               | Some (((f, zs), b), o) -> "some" ^ string_of_z f ^ string_of_zlist zs ^ string_of_zlist b ^ string_of_zlist o)
+    ^ ":" ^ string_of_z qcode
   | "upd", [ha; cl] ->
     (match update_decision (bool_of_string ha) (bool_of_string cl) with Keep -> "ok keep" | Rewrite -> "ok rewrite")
   | _ -> "err driver:badop"
